@@ -27,13 +27,18 @@ def _coherent(np, ifg, tag):
 _OPS = ['pad-samples-int', 'pad-samples-tuple', 'pad-shape', 'latcal', 'strip_latcal', 'recenter', 'read-only']
 
 
-def _inv_state(cache):
-    """an Interferogram in an arbitrary Inv-state; cache in {'none', 'xy', 'xyrt'}"""
+def _inv_state(cache, calibrated=True):
+    """an Interferogram in an arbitrary Inv-state; cache in {'none', 'xy', 'xyrt'}; calibrated=False: the pixel-unit state
+    strip_latcal leaves behind (dx = 1, _latcaled False)"""
     np_ = get('prysm.mathops.np')
     h, w = Int('h', 1), Int('w', 1)
     d = Array('d', (h, w))
     dx = Real('dx', pos=True)
     ifg = get('prysm.interferogram.Interferogram')(d, dx=dx, wavelength=Real('wvl', pos=True))
+    if not calibrated:
+        ifg.strip_latcal()
+        ifg._x = ifg._y = ifg._r = ifg._t = None
+        dx = 1
     x0, y0 = Real('x0'), Real('y0')
     if cache != 'none':
         X = np_.broadcast_to(x0 + np_.arange(w)[None, :] * dx, (h, w)) * 1.0
@@ -64,15 +69,17 @@ def _check_inv(ifg, H, W, dx, tag=''):
         check(tag + 't-is-arctan2-of-current-xy', approx(elem(t, i, j), math.atan2(ye, xe), 1e-9))
 
 
-@harness('C12', 'invariant/coordinates-coherent-after', variants=[dict(op=o, cache=c) for o in _OPS for c in ('none', 'xy', 'xyrt')],
+@harness('C12', 'invariant/coordinates-coherent-after',
+         variants=[dict(op=o, cache=c) for o in _OPS for c in ('none', 'xy', 'xyrt')] +
+                  [dict(op=o, cache=c, uncalibrated=True) for o in ('pad-samples-int', 'pad-shape', 'recenter', 'latcal', 'read-only') for c in ('none', 'xy', 'xyrt')],
          fuc=['prysm._richdata.RichData.x', 'prysm._richdata.RichData.y', 'prysm._richdata.RichData.r', 'prysm._richdata.RichData.t',
               'prysm.interferogram.Interferogram.pad', 'prysm.interferogram.Interferogram.latcal', 'prysm.interferogram.Interferogram.strip_latcal',
               'prysm.interferogram.Interferogram.recenter'])
 def invariant_step(v):
-    """one step of the induction: from ANY state satisfying the class invariant (every shape, dx, grid offset, cache population),
+    """one step of the induction: from ANY state satisfying the class invariant (every shape, dx, grid offset, cache population, calibrated or stripped to pixel units),
     after the operation the exposed x / y / r / t have the data's shape, are spaced by the current dx, and the polar arrays are
     those of the current Cartesian ones; operations that do not change shape or spacing leave shape and dx as they were."""
-    ifg, d, h, w, dx = _inv_state(v['cache'])
+    ifg, d, h, w, dx = _inv_state(v['cache'], calibrated=not v.get('uncalibrated', False))
     op = v['op']
     H, W, newdx = h, w, dx
     if op == 'pad-samples-int':
